@@ -673,7 +673,7 @@ def check(prop, tier):
             coverage["evaluations"] += res["execs"]
             coverage["distinct_nontrivial"] += len(res["hashes"])
             coverage["samples"] += [{"part": pname, "input": smp} for smp in res["samples"][:3]]
-            if res["execs"] < cfg["runs"] * res["workers"] // 10:
+            if res["execs"] < cfg["runs"] * res["workers"] // 50:   # (a time budget hit on a loaded machine is not "too few")
                 coverage.setdefault("too_few", []).append("%s: only %d executions" % (pname, res["execs"]))
             for lgs in res["logs"]:
                 inconclusive.append("%s: %s" % (pname, lgs[:300]))
@@ -755,7 +755,7 @@ def check(prop, tier):
         coverage["evaluations"] += res["cases"]
         coverage["distinct_nontrivial"] += len(res["hashes"])
         coverage["samples"] += [{"part": pname, "labels": s["labels"], "case": s["case"]} for s in res["samples"][:3]]
-        min_cases = cfg.get("min_cases", cfg["cases"] // 4)
+        min_cases = cfg.get("min_cases", cfg["cases"] // 20)   # far fewer than planned means the workers died, not that the machine was busy
         if res["cases"] < min_cases:
             coverage.setdefault("too_few", []).append("%s: only %d of %d cases ran" % (pname, res["cases"], cfg["cases"]))
         # ---- failures: shrink, confirm, report
